@@ -206,6 +206,59 @@ def ral_attest_layout(repo):
     return out
 
 
+def ral_governance_parsers(repo):
+    """per governance action: module constant, action id, fixed payload slices, size expression (const or base + lenfield*k)"""
+    out = {}
+    specs = [("alephium/contracts/governance.ral", "CoreModule", [("submitNewGuardianSet", "NewGuardianSet"), ("submitSetMessageFee", "NewMessageFee"), ("submitTransferFees", "TransferFee")]),
+             ("alephium/contracts/token_bridge/token_bridge_governance.ral", "TokenBridgeModule",
+              [("parseAndVerifyRegisterChain", "RegisterChain"), ("destroyUnexecutedSequenceContracts", "DestroyUnexecutedSequences"),
+               ("updateMinimalConsistencyLevel", "UpdateMinimalConsistencyLevel"), ("updateRefundAddress", "UpdateRefundAddress")])]
+    for path, modname, fns in specs:
+        src = _strip_comments(open(os.path.join(repo, path)).read())
+        m = re.search(r"const\s+%s\s*=\s*0x([0-9a-fA-F]+)" % modname, src)
+        if not m:
+            raise ExtractError("%s: module constant %s not found" % (path, modname))
+        module = m.group(1).lower()
+        enum = re.search(r"enum\s+ActionId\s*\{([^}]*)\}", src)
+        if not enum:
+            raise ExtractError("%s: enum ActionId not found" % path)
+        actions = dict(re.findall(r"(\w+)\s*=\s*#([0-9a-fA-F]{2})", enum.group(1)))
+        for fn, action in fns:
+            body = _func_body(src, r"fn\s+%s\s*\([^)]*\)[^{]*\{" % fn)
+            if ("ActionId." + action) not in body:
+                raise ExtractError("%s.%s: does not verify ActionId.%s" % (path, fn, action))
+            if action not in actions:
+                raise ExtractError("%s: ActionId.%s has no value" % (path, action))
+            fields = []
+            for fm in re.finditer(r"let\s+(\w+)\s*=\s*(?:\w+!\()?byteVecSlice!\(payload,\s*(\d+),\s*(\d+|payloadSize)\)", body):
+                if fm.group(3) == "payloadSize":
+                    fields.append((fm.group(1), int(fm.group(2)), -1))
+                else:
+                    fields.append((fm.group(1), int(fm.group(2)), int(fm.group(3))))
+            for fm in re.finditer(r"(?<!let\s)(\w+(?:\[\d+\])?)\s*=\s*byteVecSlice!\(payload,\s*(\d+),\s*payloadSize\)", body):
+                fields.append((re.sub(r"\W", "_", fm.group(1)), int(fm.group(2)), -1))
+            size = None
+            sm = re.search(r"assert!\(size!\(payload\)\s*==\s*(\d+)\s*,", body)
+            if sm:
+                size = (int(sm.group(1)), None, 0)
+            else:
+                if not re.search(r"assert!\(size!\(payload\)\s*==\s*payloadSize\s*,", body):
+                    raise ExtractError("%s.%s: no payload size assertion" % (path, fn))
+                pm = re.search(r"let\s+payloadSize\s*=\s*(\d+)\s*\+\s*(\w+)(?:\s*\*\s*(\d+))?", body)
+                if not pm:
+                    raise ExtractError("%s.%s: payloadSize expression not understood" % (path, fn))
+                size = (int(pm.group(1)), pm.group(2), int(pm.group(3) or 1))
+            out[action if modname == "CoreModule" else "TB_" + action] = {"module": module, "action": int(actions[action], 16), "fields": fields, "size": size}
+    # the generic check: module at payload[0:32], action at payload[32:33]
+    gsrc = _strip_comments(open(os.path.join(repo, "alephium/contracts/governance.ral")).read())
+    gb = _func_body(gsrc, r"pub\s+fn\s+parseAndVerifyGovernanceVAAGeneric\s*\([^)]*\)[^{]*\{")
+    if not re.search(r"u256From32Byte!\(byteVecSlice!\(payload,\s*0,\s*32\)\)\s*==\s*coreModule", gb) or not re.search(r"byteVecSlice!\(payload,\s*32,\s*33\)\s*==\s*action", gb):
+        raise ExtractError("parseAndVerifyGovernanceVAAGeneric: module/action slices not found")
+    if not (re.search(r"emitterChainId\s*==\s*governanceChainId", gb) and re.search(r"emitterAddress\s*==\s*governanceEmitterAddress", gb)):
+        raise ExtractError("parseAndVerifyGovernanceVAAGeneric: emitter checks not found")
+    return out
+
+
 def go_layout(name, lay):
     def fl(fs):
         return "[]verifField{" + ", ".join('{"%s", %d, %d}' % f for f in fs) + "}"
